@@ -16,6 +16,8 @@ with tempfile.TemporaryDirectory() as td:
     env.pop("INFRETIS_VERIF", None)
     cmd = ["/venv/bin/python", "-m", "pytest", "-ra", "-q", "-p", "no:cacheprovider", "--timeout=900",
            "--continue-on-collection-errors", f"--junitxml={xml}"]
+    if os.environ.get("VERIF_BASELINE_FAILFAST"):
+        cmd.append("-x")           # mutation runs: the first failing test settles it
     try:
         proc = subprocess.run(cmd, cwd=repo, env=env, stdout=subprocess.PIPE, stderr=subprocess.STDOUT, text=True,
                               timeout=float(os.environ.get("VERIF_BASELINE_TIMEOUT", "2400")), start_new_session=True)
